@@ -6,15 +6,24 @@ from pyvc.sym import *
 PATH = 'pero_ocr/core/force_alignment.py'
 CONTRACTS = {}
 
+def _cost_result(ex, st, env):
+    return fresh_array((to_int(env['nb_states']),), 'xreal', 'cost')
+
+
+def _pub(con):
+    con.public_ensures = list(con.ensures)
+    return con
+
+
 CONTRACTS[(PATH, 'initial_cost')] = Contract(
-    params={'nb_states': 'int'},
+    params={'nb_states': 'int'}, result=_cost_result,
     raises={'ValueError': 'nb_states < 2'}, ensures_exc={'ValueError': 'nb_states < 2'},
     ensures=['len(result) == nb_states', 'result[0] == 0', 'result[1] == 0',
              'forall(lambda s: implies(2 <= s and s < nb_states, isinf(result[s])))'],
 )
 
 CONTRACTS[(PATH, 'final_cost')] = Contract(
-    params={'nb_states': 'int'},
+    params={'nb_states': 'int'}, result=_cost_result,
     raises={'ValueError': 'nb_states < 2'}, ensures_exc={'ValueError': 'nb_states < 2'},
     ensures=['len(result) == nb_states', 'result[nb_states - 1] == 0', 'result[nb_states - 2] == 0',
              'forall(lambda s: implies(0 <= s and s < nb_states - 2, isinf(result[s])))'],
@@ -63,12 +72,27 @@ UPD_LE = ('forall(lambda s, q: implies(0 <= s and s < len(act_cost) and 0 <= q a
           '%s[s] <= act_cost[positions[0][q]] + column_frame[s]))')
 UPD_WIT = ('forall(lambda s: implies(0 <= s and s < len(act_cost) and not isinf(%s[s]), 0 <= wit[s] and wit[s] < %s and '
            'positions[1][wit[s]] == s and %s[s] == positions[0][wit[s]] and %s[s] == act_cost[%s[s]] + column_frame[s]))')
+def _update_result(ex, st, env):
+    from pyvc.arrays import as_array
+    n = to_int(as_array(st, env['act_cost']).shape[0])
+    env['wit'] = fresh_array((n,), 'int', 'wit')
+    return (fresh_array((n,), 'xreal', 'new_cost'), fresh_array((n,), 'int', 'backpointers'))
+
+
+def _backtrack_result(ex, st, env):
+    from pyvc.arrays import as_array, view_shape
+    bp = env['backpointers']
+    T = view_shape(bp)[0] if isinstance(bp, NDRef) else bp.shape[0]
+    return fresh_array((to_int(T),), 'int', 'path')
+
+
 CONTRACTS[(PATH, 'compute_update')] = Contract(
-    params={'positions': _positions, 'column_frame': 'nd1:xreal', 'act_cost': 'nd1:xreal'},
+    params={'positions': _positions, 'column_frame': 'nd1:xreal', 'act_cost': 'nd1:xreal'}, result=_update_result,
     requires=['len(column_frame) == len(act_cost)',
               'forall(lambda q: implies(0 <= q and q < ' + _K + ', 0 <= positions[0][q] and positions[0][q] < len(act_cost) '
               'and 0 <= positions[1][q] and positions[1][q] < len(act_cost)))'],
     ensures=['len(result[0]) == len(act_cost)', 'len(result[1]) == len(act_cost)',
+             'forall(lambda s: implies(0 <= s and s < len(act_cost), 0 <= result[1][s] and result[1][s] < len(act_cost)))',
              # one min-plus step: no allowed transition into s is cheaper than result[0][s] ...
              UPD_LE % (_K, 'result[0]'),
              # ... and a finite result[0][s] is attained by the transition from result[1][s] (an allowed predecessor)
@@ -78,13 +102,14 @@ CONTRACTS[(PATH, 'compute_update')] = Contract(
                        ghost_pre=['g_upd = act_cost[j] + column_frame[i] < new_cost[i]'],
                        ghost_post=['wit[i] = kk if g_upd else wit[i]'],
                        inv=['len(new_cost) == len(act_cost)', 'len(backpointers) == len(act_cost)', 'len(wit) == len(act_cost)',
+                            'forall(lambda s: implies(0 <= s and s < len(act_cost), 0 <= backpointers[s] and backpointers[s] < len(act_cost)))',
                             UPD_LE % ('kk', 'new_cost'),
                             UPD_WIT % ('new_cost', 'kk', 'backpointers', 'new_cost', 'backpointers')])},
 )
 
 _T = 'backpointers.shape[0]'
 CONTRACTS[(PATH, 'backtrack')] = Contract(
-    params={'backpointers': 'nd2:int', 'final_state': 'int'},
+    params={'backpointers': 'nd2:int', 'final_state': 'int'}, result=_backtrack_result,
     requires=[_T + ' >= 1', '0 <= final_state and final_state < backpointers.shape[1]',
               'forall(lambda t, s: implies(1 <= t and t < ' + _T + ' and 0 <= s and s < backpointers.shape[1], '
               '0 <= backpointers[t, s] and backpointers[t, s] < backpointers.shape[1]))'],
@@ -100,4 +125,105 @@ CONTRACTS[(PATH, 'backtrack')] = Contract(
         'forall(lambda q: implies(1 <= q and q <= kk, states_from_end[q] == backpointers[' + _T + ' - q, states_from_end[q - 1]]))'])},
 )
 
-KEYS = [(PATH, k) for k in ('initial_cost', 'final_cost', 'complete_state_seq', 'hmm_trans_from_string', 'compute_update', 'backtrack')]
+for _k in ('initial_cost', 'final_cost', 'compute_update', 'backtrack'):
+    _pub(CONTRACTS[(PATH, _k)])
+
+
+# ---------------------------------------------------------------------------------------------------
+# viterbi_align: the DP invariant act_cost = V(t, .) with V characterised by the Bellman conditions
+
+def viterbi_theory(ex, st):
+    from pyvc.arrays import as_array
+    X = as_array(st, st.env['neg_logits'])
+    A = as_array(st, st.env['A'])
+    S = to_int(A.shape[0])
+    Vp = z3.Function('V_inf', z3.IntSort(), z3.IntSort(), z3.BoolSort())
+    Vv = z3.Function('V_val', z3.IntSort(), z3.IntSort(), z3.RealSort())
+    W = z3.Function('V_argmin', z3.IntSort(), z3.IntSort(), z3.IntSort())
+
+    def V(t, s):
+        return XReal(Vp(to_int(t), to_int(s)), False, Vv(to_int(t), to_int(s)))
+
+    def allowed(j, s):
+        return z3.Not(to_xreal(A.get(to_int(j), to_int(s))).pinf)
+    t, s, j, t2 = z3.Ints('t s j t2')
+    inr = lambda a: z3.And(a >= 0, a < S)
+    init = lambda a: XReal(z3.Not(z3.Or(a == 0, a == 1)), False, 0)
+    axioms = [
+        # V(0, s) = initial cost + first frame
+        (['V_inf', 'V_val'], z3.ForAll([s], z3.Implies(inr(s), to_z3(s_eq(V(0, s), s_add(init(s), X.get(0, s))))), patterns=[Vp(0, s)])),
+        # V(t, s) is a lower bound of every allowed predecessor + frame cost ...
+        (['V_inf', 'V_val'], z3.ForAll([t, t2, s, j], z3.Implies(z3.And(t >= 1, t2 == t - 1, inr(s), inr(j), allowed(j, s)),
+                                                                  to_z3(s_le(V(t, s), s_add(V(t2, j), X.get(t, s))))),
+                                      patterns=[z3.MultiPattern(Vp(t, s), Vp(t2, j))])),
+        # ... and, when finite, attained by the allowed predecessor W(t, s)
+        (['V_inf', 'V_val'], z3.ForAll([t, s], z3.Implies(z3.And(t >= 1, inr(s), z3.Not(Vp(t, s))),
+                                                           z3.And(inr(W(t, s)), allowed(W(t, s), s),
+                                                                  to_z3(s_eq(V(t, s), s_add(V(t - 1, W(t, s)), X.get(t, s)))))),
+                                      patterns=[Vp(t, s)])),
+    ]
+    return {'V': SpecFunc(V, 'V'), 'allowed': SpecFunc(allowed, 'allowed'),
+            'PCOST': None}, axioms
+
+
+def _where_allowed(ex, st, cond, *rest, **kw):
+    """np.where(A != np.inf) for a 2-d array: (rows, cols) enumerating exactly the finite entries (A3, assumed)"""
+    from pyvc.arrays import as_array
+    c = as_array(st, cond)
+    K = z3.Int(fresh_name('n_allowed'))
+    st.assume(K >= 0)
+    rows = z3.Function(fresh_name('allowed_rows'), z3.IntSort(), z3.IntSort())
+    cols = z3.Function(fresh_name('allowed_cols'), z3.IntSort(), z3.IntSort())
+    idx = z3.Function(fresh_name('allowed_index'), z3.IntSort(), z3.IntSort(), z3.IntSort())
+    q, a, b = z3.Ints('q a b')
+    n0, n1 = to_int(c.shape[0]), to_int(c.shape[1])
+    st.assume(z3.ForAll([q], z3.Implies(z3.And(q >= 0, q < K), z3.And(rows(q) >= 0, rows(q) < n0, cols(q) >= 0, cols(q) < n1,
+                                                                    to_z3(truthy(c.get(rows(q), cols(q)))))), patterns=[rows(q)]))
+    st.assume(z3.ForAll([q], z3.Implies(z3.And(q >= 0, q < K), z3.And(rows(q) >= 0, rows(q) < n0, cols(q) >= 0, cols(q) < n1,
+                                                                    to_z3(truthy(c.get(rows(q), cols(q)))))), patterns=[cols(q)]))
+    from pyvc import lib as _lib
+    cell = to_z3(truthy(c.get(a, b)))
+    pats = [idx(a, b)] + _lib.infer_patterns(cell, [a, b])       # also triggered by a read of the mask cell itself
+    st.assume(z3.ForAll([a, b], z3.Implies(z3.And(a >= 0, a < n0, b >= 0, b < n1, cell),
+                                           z3.And(idx(a, b) >= 0, idx(a, b) < K, rows(idx(a, b)) == a, cols(idx(a, b)) == b)),
+                        patterns=pats))
+    ex.spec_funcs['allowed_index'] = SpecFunc(lambda a_, b_: idx(to_int(a_), to_int(b_)))
+    ex.assumed.append('model: np.where(mask) of a 2-d mask returns index arrays enumerating exactly the true cells')
+    return (ArrayVal((K,), lambda i: rows(to_int(i)), 'int'), ArrayVal((K,), lambda i: cols(to_int(i)), 'int'))
+
+
+_TT = 'neg_logits.shape[0]'
+_SS = 'A.shape[0]'
+BPOK = ('forall(lambda t, s: implies(1 <= t and t <= %s and 0 <= s and s < ' + _SS + ', 0 <= backpointers[t, s] and backpointers[t, s] < ' + _SS + '))')
+BPOPT = ('forall(lambda t, s: implies(1 <= t and t <= %s and 0 <= s and s < ' + _SS + ' and not isinf(V(t, s)), allowed(backpointers[t, s], s) and '
+         'V(t, s) == V(t - 1, backpointers[t, s]) + neg_logits[t, s]))')
+CONTRACTS[(PATH, 'viterbi_align')] = Contract(
+    params={'neg_logits': 'nd2:xreal', 'A': 'nd2:xreal'}, theory=viterbi_theory, ghosts={'lib:np.where': _where_allowed},
+    requires=[_TT + ' >= 1', _SS + ' >= 2', 'A.shape[1] == ' + _SS, 'neg_logits.shape[1] == ' + _SS],
+    raises={'ValueError': 'isinf(V(' + _TT + ' - 1, ' + _SS + ' - 1)) and isinf(V(' + _TT + ' - 1, ' + _SS + ' - 2))'},
+    ensures_exc={'ValueError': 'isinf(V(' + _TT + ' - 1, ' + _SS + ' - 1)) and isinf(V(' + _TT + ' - 1, ' + _SS + ' - 2))'},
+    lemmas=[
+        # walking back from the final state every state on the path has finite optimal cost
+        {'name': 'path-finite', 'var': 'u', 'lo': '0', 'hi': _TT + ' - 1', 'direction': 'down',
+         'stmt': '0 <= result[u] and result[u] < ' + _SS + ' and not isinf(V(u, result[u]))'},
+    ],
+    ensures=['len(result) == ' + _TT,
+             # ends in one of the two final states, the cheaper one
+             '(result[' + _TT + ' - 1] == ' + _SS + ' - 1 or result[' + _TT + ' - 1] == ' + _SS + ' - 2)',
+             'V(' + _TT + ' - 1, result[' + _TT + ' - 1]) <= V(' + _TT + ' - 1, ' + _SS + ' - 1) and V(' + _TT + ' - 1, result[' + _TT + ' - 1]) <= V(' + _TT + ' - 1, ' + _SS + ' - 2)',
+             # every step of the path is an allowed transition and realises the Bellman optimum: the path is optimal
+             'forall(lambda t: implies(1 <= t and t < ' + _TT + ', allowed(result[t - 1], result[t]) and '
+             'V(t, result[t]) == V(t - 1, result[t - 1]) + neg_logits[t, result[t]]))',
+             # it starts in one of the two initial states
+             '(result[0] == 0 or result[0] == 1)'],
+    loops={0: LoopSpec(counter='kk', modifies={'backpointers': 'lambda t, s: 1 <= t and t <= kk'}, inv=[
+        'len(act_cost) == ' + _SS, 'backpointers.shape[0] == ' + _TT + ' and backpointers.shape[1] == ' + _SS,
+        # the two halves of act_cost = V(kk, .) are separate obligations (each needs one Bellman condition); the equality
+        # then follows by the sequential cut
+        'forall(lambda s: implies(0 <= s and s < ' + _SS + ', V(kk, s) <= act_cost[s]))',
+        'forall(lambda s: implies(0 <= s and s < ' + _SS + ', act_cost[s] <= V(kk, s)))',
+        'forall(lambda s: implies(0 <= s and s < ' + _SS + ', act_cost[s] == V(kk, s)))',
+        BPOK % 'kk', BPOPT % 'kk'])},
+)
+
+KEYS = [(PATH, k) for k in ('initial_cost', 'final_cost', 'complete_state_seq', 'hmm_trans_from_string', 'compute_update', 'backtrack', 'viterbi_align')]
